@@ -40,7 +40,7 @@ type rich struct {
 }
 
 func newRich(c *fw.Case, record bool) (*rich, error) {
-	mc := gen.Minters(c.R, "uc4e", 28)
+	mc := gen.Minters(c.R, gen.MintDenom(c.R), 28)
 	dk := newDistKeys()
 	// base-account sources / destinations of the distributor are plain keys of the harness
 	sds := gen.SubDistributors(c.R, distOpts(dk, true))
@@ -148,6 +148,9 @@ func (r *rich) traffic(c *fw.Case, intensity int) {
 			for _, s := range sd.Sources {
 				if s.Type == disttypes.BaseAccount && c.R.Intn(2) == 0 {
 					amt := sdk.NewCoins(sdk.NewCoin(vDenom, sdk.NewIntFromBigInt(new(big.Int).Add(gen.BigAmount(c.R, 15), big.NewInt(1)))))
+					if c.R.Intn(2) == 0 {
+						amt = amt.Add(sdk.NewCoin("foo", sdk.NewInt(int64(1+c.R.Intn(1_000_000)))))
+					}
 					o := e.owners[c.R.Intn(len(e.owners))]
 					r.deliver(o, sdk.NewCoins(sdk.NewCoin(vDenom, sdk.NewInt(int64(1+c.R.Intn(3000))))), &banktypes.MsgSend{FromAddress: o.Bech(), ToAddress: s.Id, Amount: amt})
 				}
